@@ -19,7 +19,6 @@ import (
 	"strings"
 
 	"pgregory.net/rapid"
-
 )
 
 type tkind int
@@ -72,14 +71,14 @@ func (t *ty) String() string {
 
 func (t *ty) eq(o *ty) bool { return t.String() == o.String() }
 
-func scalar(sc string) *ty       { return &ty{k: kScalar, sc: sc} }
-func vec(n int, sc string) *ty   { return &ty{k: kVec, sc: sc, n: n} }
-func mat(c, r int) *ty           { return &ty{k: kMat, sc: "f32", c: c, r: r} }
-func arr(e *ty, n int) *ty       { return &ty{k: kArray, elem: e, n: n} }
-func (t *ty) numeric() bool      { return (t.k == kScalar || t.k == kVec) && t.sc != "bool" }
-func (t *ty) isInt() bool        { return (t.k == kScalar || t.k == kVec) && (t.sc == "i32" || t.sc == "u32") }
-func (t *ty) isFloat() bool      { return (t.k == kScalar || t.k == kVec) && t.sc == "f32" }
-func (t *ty) isBool() bool       { return (t.k == kScalar || t.k == kVec) && t.sc == "bool" }
+func scalar(sc string) *ty        { return &ty{k: kScalar, sc: sc} }
+func vec(n int, sc string) *ty    { return &ty{k: kVec, sc: sc, n: n} }
+func mat(c, r int) *ty            { return &ty{k: kMat, sc: "f32", c: c, r: r} }
+func arr(e *ty, n int) *ty        { return &ty{k: kArray, elem: e, n: n} }
+func (t *ty) numeric() bool       { return (t.k == kScalar || t.k == kVec) && t.sc != "bool" }
+func (t *ty) isInt() bool         { return (t.k == kScalar || t.k == kVec) && (t.sc == "i32" || t.sc == "u32") }
+func (t *ty) isFloat() bool       { return (t.k == kScalar || t.k == kVec) && t.sc == "f32" }
+func (t *ty) isBool() bool        { return (t.k == kScalar || t.k == kVec) && t.sc == "bool" }
 func (t *ty) withSc(s string) *ty { c := *t; c.sc = s; return &c }
 
 var (
@@ -109,25 +108,26 @@ type fnDef struct {
 }
 
 type gen struct {
-	t        *rapid.T
-	out      strings.Builder
-	structs  []*structDef
-	globals  []*binding
-	helpers  []*fnDef
-	scopes   [][]*binding
-	nameN    int
-	pool     []*ty // types that circulate
-	loop     int   // nesting of loops (break/continue allowed)
-	inCont   bool  // inside a continuing block
-	inSwitch int
-	fn       *fnDef
-	stage    string
-	ind      int
-	budget   int
-	maxDepth int
-	features map[string]bool
-	bufVar   *binding // the opaque storage buffer, if any
-	wgVars   []*binding
+	t         *rapid.T
+	out       strings.Builder
+	structs   []*structDef
+	globals   []*binding
+	helpers   []*fnDef
+	scopes    [][]*binding
+	nameN     int
+	pool      []*ty // types that circulate
+	loop      int   // nesting of loops (break/continue allowed)
+	inCont    bool  // inside a continuing block
+	inSwitch  int
+	fn        *fnDef
+	stage     string
+	ind       int
+	budget    int
+	maxDepth  int
+	features  map[string]bool
+	constDecl map[string]bool // names declared by `const` (module or local scope)
+	bufVar    *binding        // the opaque storage buffer, if any
+	wgVars    []*binding
 }
 
 func (g *gen) feat(s string) { g.features[s] = true }
@@ -147,8 +147,8 @@ func (g *gen) line(format string, a ...any) {
 	g.out.WriteString("\n")
 }
 
-func (g *gen) push()             { g.scopes = append(g.scopes, nil) }
-func (g *gen) pop()              { g.scopes = g.scopes[:len(g.scopes)-1] }
+func (g *gen) push()              { g.scopes = append(g.scopes, nil) }
+func (g *gen) pop()               { g.scopes = g.scopes[:len(g.scopes)-1] }
 func (g *gen) declare(b *binding) { g.scopes[len(g.scopes)-1] = append(g.scopes[len(g.scopes)-1], b) }
 
 // visible returns the bindings in scope, innermost first, shadowed names removed.
@@ -291,6 +291,10 @@ func (g *gen) paths(e string, t *ty, want *ty, ref, konst bool, depth int, out *
 	if depth >= 2 {
 		return
 	}
+	if g.constDecl[e] && t.k != kVec && !(t.k == kArray && t.elem.k == kScalar) &&
+		excludedQuiet("c09-const-composite-access-folds-to-flat-scalar") {
+		return // C09-3: accesses into a `const` matrix / array of composites / struct are mis-folded
+	}
 	switch t.k {
 	case kVec:
 		if want.k == kScalar && want.sc == t.sc {
@@ -395,7 +399,63 @@ type expr struct {
 	konst bool
 }
 
+// genExpr produces an expression of type t.  Its konst flag is recomputed from
+// the text: "possibly constant" = mentions no runtime binding and no user
+// function (naga folds builtins, conversions and lets of constants).
 func (g *gen) genExpr(t *ty, d int) expr {
+	e := g.genExpr0(t, d)
+	e.konst = g.possiblyConst(e.s)
+	return e
+}
+
+func isIdentByte(c byte) bool {
+	return c == '_' || (c >= 'a' && c <= 'z') || (c >= 'A' && c <= 'Z') || (c >= '0' && c <= '9')
+}
+
+func (g *gen) possiblyConst(s string) bool {
+	var names map[string]*binding
+	for i := 0; i < len(s); {
+		c := s[i]
+		if !(c == '_' || (c >= 'a' && c <= 'z') || (c >= 'A' && c <= 'Z')) {
+			if c >= '0' && c <= '9' { // skip a numeric literal with its suffix
+				for i < len(s) && (isIdentByte(s[i]) || s[i] == '.') {
+					i++
+				}
+				continue
+			}
+			i++
+			continue
+		}
+		j := i
+		for j < len(s) && isIdentByte(s[j]) {
+			j++
+		}
+		id := s[i:j]
+		prevDot := i > 0 && s[i-1] == '.'
+		i = j
+		if prevDot {
+			continue // member / swizzle
+		}
+		if strings.HasPrefix(id, "fn_") {
+			return false
+		}
+		if names == nil {
+			names = map[string]*binding{}
+			for _, b := range g.visible() {
+				names[b.name] = b
+			}
+			for _, b := range g.wgVars {
+				names[b.name] = b
+			}
+		}
+		if b, ok := names[id]; ok && !b.konst {
+			return false
+		}
+	}
+	return true
+}
+
+func (g *gen) genExpr0(t *ty, d int) expr {
 	if d <= 0 {
 		return g.leaf(t)
 	}
@@ -690,6 +750,9 @@ func (g *gen) reduce(t *ty, d int) (expr, bool) {
 			g.feat("distance")
 			return expr{fmt.Sprintf("distance(%s, %s)", g.genExpr(vec(n, "f32"), d-1).s, g.genExpr(vec(n, "f32"), d-1).s), false}, true
 		case 3:
+			if excluded("c09-math-transpose-determinant-type") {
+				return expr{}, false
+			}
 			g.feat("determinant")
 			return expr{fmt.Sprintf("determinant(%s)", g.genExpr(mat(n, n), d-1).s), false}, true
 		case 4:
@@ -842,9 +905,9 @@ func (g *gen) numBuiltin(t *ty, d int) (expr, bool) {
 		case 3:
 			return call([]string{"countOneBits", "countLeadingZeros", "countTrailingZeros", "reverseBits", "firstLeadingBit", "firstTrailingBit"}[g.pick("i1", 6)], a())
 		case 4:
-			return call("extractBits", a(), fmt.Sprintf("%du", g.intn("off", 0, 8)), fmt.Sprintf("%du", g.intn("cnt", 1, 8)))
+			return call("extractBits", g.concreteArg(t, a()), fmt.Sprintf("%du", g.intn("off", 0, 8)), fmt.Sprintf("%du", g.intn("cnt", 1, 8)))
 		case 5:
-			return call("insertBits", a(), a(), fmt.Sprintf("%du", g.intn("off", 0, 8)), fmt.Sprintf("%du", g.intn("cnt", 1, 8)))
+			return call("insertBits", g.concreteArg(t, a()), g.concreteArg(t, a()), fmt.Sprintf("%du", g.intn("off", 0, 8)), fmt.Sprintf("%du", g.intn("cnt", 1, 8)))
 		case 6:
 			if t.k == kVec && t.n == 4 {
 				g.feat("unpack")
@@ -859,6 +922,16 @@ func (g *gen) numBuiltin(t *ty, d int) (expr, bool) {
 		}
 	}
 	return expr{}, false
+}
+
+// concreteArg wraps a possibly abstract i32 argument in an explicit conversion
+// while C09-11 is open (extractBits/insertBits type an abstract-int first
+// argument as u32, taken from the offset/count parameters).
+func (g *gen) concreteArg(t *ty, s string) string {
+	if t.sc == "i32" && g.possiblyConst(s) && excluded("c09-extractbits-abstract-arg-typed-u32") {
+		return fmt.Sprintf("%s(%s)", t, s)
+	}
+	return s
 }
 
 func (g *gen) boolExpr(d int) expr {
@@ -926,41 +999,64 @@ func (g *gen) bvecExpr(t *ty, d int) expr {
 }
 
 func (g *gen) matExpr(t *ty, d int) expr {
+	// C09-10: arithmetic over constant matrices is folded into a mistyped Compose.
+	noConstArith := excludedQuiet("c09-const-matrix-arithmetic-folds-to-vector")
 	switch g.pick("matProd", 8) {
 	case 0, 1:
 		return g.leaf(t)
 	case 2:
 		op := []string{"+", "-"}[g.pick("mop", 2)]
-		return expr{paren(g.genExpr(t, d-1)) + " " + op + " " + paren(g.genExpr(t, d-1)), false}
+		l, r := g.genExpr(t, d-1), g.genExpr(t, d-1)
+		if l.konst && r.konst && noConstArith {
+			return l
+		}
+		return expr{paren(l) + " " + op + " " + paren(r), l.konst && r.konst}
 	case 3:
 		g.feat("mat-scalar-mul")
 		s := g.operand(tF32, d-1, !excluded("c09-abstract-literal-times-matrix"))
-		m := paren(g.genExpr(t, d-1))
-		if g.chance("swap", 50) {
-			return expr{s.s + " * " + m, false}
+		m := g.genExpr(t, d-1)
+		if s.konst && m.konst && noConstArith {
+			return m
 		}
-		return expr{m + " * " + s.s, false}
+		if g.chance("swap", 50) {
+			return expr{s.s + " * " + paren(m), s.konst && m.konst}
+		}
+		return expr{paren(m) + " * " + s.s, s.konst && m.konst}
 	case 4:
 		k := g.intn("inner", 2, 4)
 		g.feat("mat-mat-mul")
-		return expr{paren(g.genExpr(mat(k, t.r), d-1)) + " * " + paren(g.genExpr(mat(t.c, k), d-1)), false}
+		l, r := g.genExpr(mat(k, t.r), d-1), g.genExpr(mat(t.c, k), d-1)
+		if l.konst && r.konst && noConstArith {
+			return g.leaf(t)
+		}
+		return expr{paren(l) + " * " + paren(r), l.konst && r.konst}
 	case 5:
+		if t.c != t.r && excluded("c09-math-transpose-determinant-type") {
+			return g.leaf(t)
+		}
 		g.feat("transpose")
-		return expr{fmt.Sprintf("transpose(%s)", g.genExpr(mat(t.r, t.c), d-1).s), false}
+		e := g.genExpr(mat(t.r, t.c), d-1)
+		return expr{fmt.Sprintf("transpose(%s)", e.s), e.konst}
 	case 6:
 		cols := make([]string, t.c)
+		k := true
 		for i := range cols {
-			cols[i] = g.genExpr(vec(t.r, "f32"), d-1).s
+			e := g.genExpr(vec(t.r, "f32"), d-1)
+			cols[i] = e.s
+			k = k && e.konst
 		}
 		g.feat("mat-ctor")
-		return expr{fmt.Sprintf("%s(%s)", t, strings.Join(cols, ", ")), false}
+		return expr{fmt.Sprintf("%s(%s)", t, strings.Join(cols, ", ")), k}
 	}
 	es := make([]string, t.c*t.r)
+	k := true
 	for i := range es {
-		es[i] = g.genExpr(tF32, d-1).s
+		e := g.genExpr(tF32, d-1)
+		es[i] = e.s
+		k = k && e.konst
 	}
 	g.feat("mat-ctor")
-	return expr{fmt.Sprintf("mat%dx%d<f32>(%s)", t.c, t.r, strings.Join(es, ", ")), false}
+	return expr{fmt.Sprintf("mat%dx%d<f32>(%s)", t.c, t.r, strings.Join(es, ", ")), k}
 }
 
 func (g *gen) compositeExpr(t *ty, d int) expr {
